@@ -239,6 +239,7 @@ var extraChecks = map[string][]func(*Loaded, *ContractDB, *Report){
 	"C17": {frameObligations},
 	"C04": {determinismObligations},
 	"C16": {raceObligations},
+	"C07": {containmentObligations},
 }
 
 func runDeductive(L *Loaded, db *ContractDB, rep *Report) {
